@@ -76,8 +76,8 @@ pub fn c02_race2() {
     mk_db(&n.dbs, "d", "none");
     let cur = vsym::any_i32("cur");
     vsym::assume(cur >= 1 && cur < 1000);
-    poke(&n.dbs, "d", "k", &String::from("v0"), cur, ValueStatus::Ok, 0, 0);
-    let a = vsym::choice("opA", 3); let b = vsym::choice("opB", 3);
+    poke(&n.dbs, "d", "k", &String::from("5"), cur, ValueStatus::Ok, 0, 0);
+    let a = vsym::choice("opA", 4); let b = vsym::choice("opB", 4);
     vsym::tag_i("opA", a as i64); vsym::tag_i("opB", b as i64);
     let d1 = n.dbs.clone(); let d2 = n.dbs.clone();
     let (mut c1, _rx1) = db_client(&n.dbs, "d"); let (mut c2, _rx2) = db_client(&n.dbs, "d");
@@ -95,20 +95,22 @@ pub fn c02_race2() {
     let m2 = ra == a2 && rb == b2 && fin.value == v2 && fin.version == ver2;
     vsym::check("race.linearizable", m1 || m2);
 }
-/// op 0: set-safe k <cur> <tag>; op 1: set k <tag>; op 2: get-safe k (always succeeds)
+/// op 0: set-safe k <cur> <tag>; op 1: set k <tag>; op 2: get-safe k (always succeeds); op 3: increment k
 fn run_op(dbs: &vstd::sync::Arc<Databases>, c: &mut Client, op: usize, cur: i32, tag: &str) -> bool {
     if op == 0 { is_ok(&process_request(&["set-safe k ", &cur.to_string(), " ", tag].concat(), dbs, c)) }
     else if op == 1 { is_ok(&process_request(&["set k ", tag].concat(), dbs, c)) }
+    else if op == 3 { is_ok(&process_request("increment k", dbs, c)) }
     else { match process_request("get-safe k", dbs, c) { Response::Value { .. } => true, _ => false } }
 }
 /// reference map: run A then B (a_first) or B then A; returns (okA, okB, final value, final version)
 fn seq_model(a: usize, b: usize, cur: i32, a_first: bool) -> (bool, bool, String, i32) {
-    let mut val = String::from("v0"); let mut ver = cur;
+    let mut val = String::from("5"); let mut ver = cur;
     let mut ok = [true, true];
     let order = if a_first { [(0usize, a, "a"), (1usize, b, "b")] } else { [(1usize, b, "b"), (0usize, a, "a")] };
     for (who, op, tag) in order.iter() {
         if *op == 0 { if cur >= ver { val = String::from(*tag); ver = cur + 1; } else { ok[*who] = false; } }
         else if *op == 1 { val = String::from(*tag); ver = ver + 1; }
+        else if *op == 3 { match val.parse::<i32>() { Ok(x) => { val = (x + 1).to_string(); ver = ver + 1; } Err(_) => { ok[*who] = false; } } }
     }
     (ok[0], ok[1], val, ver)
 }
